@@ -75,6 +75,7 @@ class SyncTasks(Tasks):
         """Set up Tasks."""
         super().__init__(*args, **kwargs)
         self._cancel_save = None
+        self._poll_thread = None
         self._stop_event = threading.Event()
 
     def add_job(self, func, *args):
@@ -83,14 +84,23 @@ class SyncTasks(Tasks):
         A job is a tuple of function and optional args. Keyword arguments
         can be passed via use of functools.partial. The job should return a
         string that should be sent by the gateway protocol.
+
+        A job that is added while a job runs, by a message handler, is run
+        at once like the async version does. What a line triggers is sent
+        before the lines that are queued behind it are handled.
         """
-        self.queue.append((func, args))
+        job = func, args
+        if threading.current_thread() is self._poll_thread:
+            reply = self.run_job(job)
+            self.transport.send(reply)
+            return
+        self.queue.append(job)
 
     def start(self):
         """Start the connection to a transport."""
         self.transport.connect()
-        poll_thread = threading.Thread(target=self._poll_queue)
-        poll_thread.start()
+        self._poll_thread = threading.Thread(target=self._poll_queue)
+        self._poll_thread.start()
 
     def _poll_queue(self):
         """Poll the queue for work."""
